@@ -66,7 +66,16 @@ def make_mapped_model(cfg, seed, rich=False):
     # semilocal reduced variables are non-negative (UMap); nonlocal features may have either sign
     # (gradient contractions, Laplacian-type kernels), so they go through the signed map
     nsl = st.sl_settings.nfeat
-    fl = FeatureList([UMap(i, 0.3 + 0.1 * (i % 5)) if i < nsl else SignedUMap(i, 0.5 + 0.2 * (i % 4)) for i in range(1, nf)])
+    maps = [UMap(i, 0.3 + 0.1 * (i % 5)) if i < nsl else SignedUMap(i, 0.5 + 0.2 * (i % 4)) for i in range(1, nf)]
+    if cfg.get("fl") == "rich" and nf > nsl:
+        # composite transforms that read SEVERAL raw features, some of them through the same index twice (x_k scaled by
+        # powers of the non-negative semilocal variables): the chain rule must accumulate over every argument slot
+        from ciderpress.dft.transform_data import XMap, YMap
+        a, b = 1, min(2, nsl - 1)
+        maps[-1] = XMap(a, a, nf - 1, 0.4, 0.7)
+        if nf - nsl >= 2:
+            maps[-2] = YMap(a, b, b, nf - 2, 0.3, 0.5, 0.9)
+    fl = FeatureList(maps)
     evs = make_evaluators(cfg["eval"], fl.nfeat, rng)
     base = cfg.get("base", "lda")
     if cfg["mix"] == "libxc2":
